@@ -38,12 +38,17 @@ Sites(a) ==    \* all <<component, position>> pairs that can be re-spelled
   \cup (IF a.frag = None THEN {} ELSE {<<<<"frag", 0>>, j>> : j \in 1..Len(Get(a.frag))})
 
 (* ---- structural variations (C18). V is a set of variation names. ---- *)
-StdVariations == {"schemecase", "hostcase", "port_default", "port_empty", "dot", "dotdot", "dot_pct", "dotdot_pct", "tab", "lf", "cr", "lead", "trail"}
+StdVariations == {"schemecase", "hostcase", "port_default", "port_empty", "dot", "dotdot", "dot_pct", "dotdot_pct", "dotdot_pct_ll", "dotdot_pct_lu", "dotdot_pct_ul",
+                  "tab", "lf", "cr", "lead", "trail"}
 OtherVariations == {"emptyfrag"}
 PathText(a, Spl, V) ==
   LET segtext(i) == SpellWord(a.segs[i], Spl, <<"seg", i>>)
       dots == (IF "dot" \in V THEN <<47, 46>> ELSE <<>>) \o (IF "dot_pct" \in V THEN <<47, 37, 50, 101>> ELSE <<>>)
               \o (IF "dotdot" \in V THEN <<47, 120, 47, 46, 46>> ELSE <<>>) \o (IF "dotdot_pct" \in V THEN <<47, 121, 47, 37, 50, 69, 46>> ELSE <<>>)
+              \* every way of writing both dots of '..' as escapes: %2e%2e, %2e%2E, %2E%2e
+              \o (IF "dotdot_pct_ll" \in V THEN <<47, 122, 47, 37, 50, 101, 37, 50, 101>> ELSE <<>>)
+              \o (IF "dotdot_pct_lu" \in V THEN <<47, 118, 47, 37, 50, 101, 37, 50, 69>> ELSE <<>>)
+              \o (IF "dotdot_pct_ul" \in V THEN <<47, 119, 47, 37, 50, 69, 37, 50, 101>> ELSE <<>>)
   IN IF a.segs = <<>> THEN dots \o <<47>>
      ELSE dots \o Flat([i \in 1..Len(a.segs) |-> <<47>> \o segtext(i)])
 QueryText(a, Spl) ==
